@@ -408,6 +408,10 @@ def run(prog, ctx):
             ob.rule = "E4"
     e5(prog, ctx)
     parser.blank_set_rule(prog, ctx, "E7")
+    from sa.report import Ctx as _CtxH
+    subh = _CtxH(ctx.prop, ctx.tier, prog)
+    parser.header_and_set_rules(prog, subh, "E1", "E1x")
+    ctx.obs.extend(ob for ob in subh.obs if ob.rule == "E1")
     # E8: which error a layered read reports depends on every layer being looked at: a layer without drop-in directory is passed over
     # (= C01.L20); E2: and the file parsed - the one the location names - is the one addressed (get_absolute_path, = C06.G2)
     from rules import common as _common
